@@ -397,6 +397,7 @@ def conclude(check, tier, seed, results, timer, extra_coverage=None):
         "rule": check.RULE,
         "samples": samples or [{"note": "no sample recorded"}],
         "runs_per_hour": round(total_runs / max(wall, 1e-9) * 3600.0),
+        "seeds_per_hour": round(total_runs / max(wall, 1e-9) * 3600.0),  # every run has its own derived seed: sha256(VERIF_SEED/property/run/job/variant)
         "workloads": len(results),
         "runs_by_entry": dict(entries),
         "sim_time_s": sim_time,
